@@ -1,8 +1,9 @@
 import XsVerif.Driver.Util
 import XsVerif.Model.Lazy
 import XsVerif.Model.SchemaPaths
+import XsVerif.Model.PathEval
 import XsVerif.Driver.LazyUtil
-open Lean XsVerif.Driver XsVerif.Lazy XsVerif.SchemaPaths
+open Lean XsVerif.Driver XsVerif.Lazy XsVerif.SchemaPaths XsVerif.PathEval
 
 namespace XsVerif.Driver.C20
 open XsVerif.Driver.LazyUtil
@@ -26,9 +27,32 @@ def mkSchema (rows : List Row) (globals : List Nat) : Schema :=
       | some r => r.kids.filterMap get
       | none => [] }
 
+def parseStep (j : Json) : Except String Step := do
+  let name := match j.getObjValAs? String "name" with
+    | .ok s => some s
+    | .error _ => none
+  let pos := match j.getObjValAs? Nat "pos" with
+    | .ok k => some k
+    | .error _ => none
+  return { desc := ← getBool j "desc", name, pos }
+
 def handle (j : Json) : Except String Json := do
   let op ← getStr j "op"
   match op with
+  | "select" =>
+    -- resource.iterfind(path): ids of the selected elements in the order they are yielded, and whether every
+    -- selected chain matches the path read as a pattern on tag chains (theorem sel_chain_matches: always)
+    let t ← parseTree (← j.getObjVal? "tree")
+    let abs ← getBool j "abs"
+    let steps ← (← getArr j "steps").toList.mapM parseStep
+    let sel := selC abs t steps
+    let ok := sel.all fun c => if abs then matchesB steps c.1 else matchesRel t.tag steps c.1
+    return Json.mkObj [("ids", natArr (sel.map (·.2.id))), ("chains_match", ok)]
+  | "findallp" =>
+    let rows ← (← getArr j "decls").toList.mapM parseRow
+    let S := mkSchema rows (← natList (← j.getObjVal? "globals"))
+    let steps ← (← getArr j "steps").toList.mapM parseStep
+    return Json.mkObj [("ids", natArr ((findAllP S steps).map (·.id)))]
   | "findall" | "get_element" =>
     let rows ← (← getArr j "decls").toList.mapM parseRow
     let S := mkSchema rows (← natList (← j.getObjVal? "globals"))
